@@ -36,6 +36,37 @@ pub fn leaf_tokens(shape: &str) -> std::collections::BTreeSet<String> {
         .collect()
 }
 
+/// Shapes of the direct children of a `[...]` shape string.
+pub fn children_of(shape: &str) -> Vec<String> {
+    let inner = match shape.strip_prefix('[').and_then(|s| s.strip_suffix(']')) {
+        Some(i) => i,
+        None => return vec![],
+    };
+    let mut out = vec![];
+    let mut depth = 0;
+    let mut cur = String::new();
+    for ch in inner.chars() {
+        match ch {
+            '[' => {
+                depth += 1;
+                cur.push(ch);
+            }
+            ']' => {
+                depth -= 1;
+                cur.push(ch);
+            }
+            ',' if depth == 0 => {
+                out.push(std::mem::take(&mut cur));
+            }
+            _ => cur.push(ch),
+        }
+    }
+    if !cur.is_empty() {
+        out.push(cur);
+    }
+    out
+}
+
 /// LCS length over equal shapes, optionally forbidding one pair.
 pub fn lcs_len(a: &[String], b: &[String], forbid: Option<(usize, usize)>) -> usize {
     let (n, m) = (a.len(), b.len());
